@@ -36,6 +36,18 @@ type FilterPlan struct {
 	// block has an output script a filter can provably omit; the liars that
 	// shared a height still share one.
 	SnapOmit bool `json:",omitempty"`
+	// PreLen > 0 (and < ChainLen) makes the session TWO-STAGED (see
+	// catchup.go). Stage 1: the honest chain is PreLen blocks long; block
+	// headers and then filter headers are synced to it by the usual rounds, so
+	// the committed filter tip comes to rest at PreLen (any height, not just a
+	// multiple of the checkpoint interval). Stage 2: the honest chain is
+	// ChainLen blocks long (peers, lies, growth and reorganisations as in a
+	// one-stage session); its block headers are synced and the filter rounds
+	// continue from the stored filter tip. PreFork > 0: the stage-2 chain
+	// forks that many blocks BELOW the stage-1 tip (the top PreFork committed
+	// filter headers are rolled back first). Zero values = one-stage session.
+	PreLen  int `json:",omitempty"`
+	PreFork int `json:",omitempty"`
 }
 
 // PeerBehaviour describes one scripted peer of a filter session.
@@ -79,6 +91,32 @@ type FilterSession struct {
 	// gate, when set, replaces the immediate installation of the hard-coded
 	// checkpoints (see RunMultiCPFilter).
 	gate func(install func())
+
+	// PanicKind / PanicText: step kind and text of the most recent panic of a
+	// block-manager call made by step(). StepObs.Panic carries the same to the
+	// OnStep callback, but a step after which the stores cannot be read back
+	// never reaches OnStep (it ends the session through OnStoreErr): the
+	// OnStoreErr callback reads the panic here.
+	PanicKind, PanicText string
+	// Measured: checkpointed rounds (cf.checkpointed steps) that committed
+	// filter headers starting from a stored filter tip that is not a multiple
+	// of the checkpoint interval (a partially stored first interval), and the
+	// connected events seen in those steps.
+	PartialCheckpointed, PartialCheckpointedEvents int
+	// Stage1Tip: (two-stage sessions) the filter tip height stage 1 ended at;
+	// Stage2Lag: how far the filter tip was behind the block tip when the
+	// stage-2 filter rounds began.
+	Stage1Tip, Stage2Lag int
+}
+
+// TruncatedServed sums, over the session's liars, the cfheaders answers cut
+// short (netsim.LieTruncate) and those cut to whole checkpoint intervals.
+func (fs *FilterSession) TruncatedServed() (all, whole int) {
+	for _, l := range fs.Liars {
+		a, w := l.TruncatedBatches()
+		all, whole = all+a, whole+w
+	}
+	return all, whole
 }
 
 // CPOffence describes how a served checkpoint list contradicted the installed
@@ -192,8 +230,16 @@ func (fs *FilterSession) step(kind, desc string, f func()) (*StepObs, error) {
 		}
 	})
 	fs.Net.Wait()
+	if st.Panic != "" {
+		fs.PanicKind, fs.PanicText = kind, st.Panic
+		fs.note("PANIC in %s: %s", kind, st.Panic)
+	}
 	if err := fs.endStep(st); err != nil {
 		return st, &StoreErr{err}
+	}
+	if kind == "cf.checkpointed" && len(st.PostF) > len(st.PreF) && (len(st.PreF)-1)%wire.CFCheckptInterval != 0 {
+		fs.PartialCheckpointed++
+		fs.PartialCheckpointedEvents += len(st.Events)
 	}
 	if fs.OnStep != nil {
 		fs.OnStep(fs, st)
